@@ -1,1 +1,492 @@
-/-! Property theorems for C03 (not built yet). -/
+import Cellml.Units.LoadableCheck
+import Cellml.Units.OffsetLemmas
+
+/-! # C03 — units definitions mean what the CellML specification says, in any order
+
+    Model: `Units.addUnits` (`Units/Worklist.lean`: the deque loop of `Parser._add_units` as a total function) composed
+    with `Units.addUnit` / `addBaseUnit` (`Units/Define.lean`: `_make_pint_unit_definition`, `UnitStore.add_unit`, the
+    `_WORD` substitution) over the mini-pint registry (`Units/Core.lean`). Specification: `Units.Den`
+    (`Units/Den.lean`), the formula ∏ multiplier·(10^prefix·⟦ref⟧)^exponent as an inductive relation.
+
+    1. generated tables: every prefix name, every built-in unit (one theorem per entry);
+    2. `worklist_terminates` (with an explicit bound on the number of passes);
+    3. `worklist_sound`, `den_functional`, `word_subst_correct`;
+    4. `worklist_loadable` / `worklist_complete` / `worklist_perm`: success is characterised by conditions that do not
+       mention the order, and the meaning of every name is the same in every order;
+    5. rejection theorems: duplicate, built-in override, offset, cycle, dangling reference.
+
+    Theorems whose name ends in `_partial` carry the hypothesis `GoodRefs` (every REFERENCED name starts with a letter
+    or an underscore); the counterexample `digit_leading_reference_rejected` shows the hypothesis is needed on the
+    unchanged tree. Everything else is at full strength: all definition sets, any size, any depth, any order. -/
+
+namespace Cellml.Props.C03
+open Units PMap Cellml.Gen
+
+/-! ## 1. Generated tables -/
+
+/-! ### 1a. `UNIT_PREFIXES` (parser.py 21-43): each SI prefix name of the schema maps to its power of ten -/
+
+theorem prefix_yotta : prefixPower "yotta" = some 24 := by decide +kernel
+theorem prefix_zetta : prefixPower "zetta" = some 21 := by decide +kernel
+theorem prefix_exa : prefixPower "exa" = some 18 := by decide +kernel
+theorem prefix_peta : prefixPower "peta" = some 15 := by decide +kernel
+theorem prefix_tera : prefixPower "tera" = some 12 := by decide +kernel
+theorem prefix_giga : prefixPower "giga" = some 9 := by decide +kernel
+theorem prefix_mega : prefixPower "mega" = some 6 := by decide +kernel
+theorem prefix_kilo : prefixPower "kilo" = some 3 := by decide +kernel
+theorem prefix_hecto : prefixPower "hecto" = some 2 := by decide +kernel
+theorem prefix_deka : prefixPower "deka" = some 1 := by decide +kernel
+theorem prefix_deci : prefixPower "deci" = some (-1) := by decide +kernel
+theorem prefix_centi : prefixPower "centi" = some (-2) := by decide +kernel
+theorem prefix_milli : prefixPower "milli" = some (-3) := by decide +kernel
+theorem prefix_micro : prefixPower "micro" = some (-6) := by decide +kernel
+theorem prefix_nano : prefixPower "nano" = some (-9) := by decide +kernel
+theorem prefix_pico : prefixPower "pico" = some (-12) := by decide +kernel
+theorem prefix_femto : prefixPower "femto" = some (-15) := by decide +kernel
+theorem prefix_atto : prefixPower "atto" = some (-18) := by decide +kernel
+theorem prefix_zepto : prefixPower "zepto" = some (-21) := by decide +kernel
+theorem prefix_yocto : prefixPower "yocto" = some (-24) := by decide +kernel
+/-- the one key of the table that the schema does not allow: the alias `deca` -/
+theorem prefix_deca : prefixPower "deca" = some 1 := by decide +kernel
+
+/-- SI prefixes, written from the SI brochure (CellML 1.1 section 5.2.2, table 3) -/
+def siPrefixes : List (String × Int) :=
+  [("yotta", 24), ("zetta", 21), ("exa", 18), ("peta", 15), ("tera", 12), ("giga", 9), ("mega", 6), ("kilo", 3),
+   ("hecto", 2), ("deka", 1), ("deci", -1), ("centi", -2), ("milli", -3), ("micro", -6), ("nano", -9), ("pico", -12),
+   ("femto", -15), ("atto", -18), ("zepto", -21), ("yocto", -24)]
+
+/-- the prefix names the RELAX NG schema enumerates are exactly the 20 SI names -/
+theorem schema_prefixes_are_si : schemaPrefixes.Perm (siPrefixes.map Prod.fst) := by decide +kernel
+
+/-- every name the schema allows has its SI power of ten in the table -/
+theorem prefix_table : ∀ p ∈ schemaPrefixes, prefixPower p = siPrefixes.lookup p := by decide +kernel
+
+/-- the keys of the table are the schema's names plus the alias `deca`, nothing else, none twice -/
+theorem prefix_keys : (unitPrefixes.map Prod.fst).Perm ("deca" :: schemaPrefixes) ∧
+    (unitPrefixes.map Prod.fst).Nodup := by decide +kernel
+
+/-- a prefix that is not a key of the table is read as an integer power of ten (`'1e%s' % prefix`) -/
+theorem prefix_integer (p : String) (h : unitPrefixes.lookup p = none) : prefixPower p = Decimal.parseInt p := by
+  simp [prefixPower, h]
+
+example : prefixPower "-3" = some (-3) ∧ prefixPower "+6" = some 6 ∧ prefixPower "12" = some 12 ∧
+    prefixPower "kilos" = none := by decide +kernel
+
+/-! ### 1b. `data/cellml_units.txt`: every built-in unit expands to the scale and SI base units of CellML 1.1,
+    section 5.2.1, table 2. The expected table is written here by hand from the specification.
+
+    `radian` and `steradian` are dimensionless derived units in the specification (m·m⁻¹, m²·m⁻²); the implementation
+    keeps `radian` as a root unit that carries no dimension (pint: `radian = []`). The table records that root, so
+    `lumen = cd·sr` is checked exactly, and `specDimension` drops it: the physical dimension is checked as well. -/
+
+/-- name ↦ (power of ten of the SI scale, exponents of the SI base units kg m s A K mol cd — and `radian`) -/
+def specUnits : List (String × Int × List (String × Int)) := [
+  ("ampere", 0, [("ampere", 1)]),
+  ("becquerel", 0, [("second", -1)]),
+  ("candela", 0, [("candela", 1)]),
+  ("coulomb", 0, [("second", 1), ("ampere", 1)]),
+  ("dimensionless", 0, []),
+  ("farad", 0, [("meter", -2), ("kilogram", -1), ("second", 4), ("ampere", 2)]),
+  ("gram", -3, [("kilogram", 1)]),
+  ("gray", 0, [("meter", 2), ("second", -2)]),
+  ("henry", 0, [("meter", 2), ("kilogram", 1), ("second", -2), ("ampere", -2)]),
+  ("hertz", 0, [("second", -1)]),
+  ("joule", 0, [("meter", 2), ("kilogram", 1), ("second", -2)]),
+  ("katal", 0, [("second", -1), ("mole", 1)]),
+  ("kelvin", 0, [("kelvin", 1)]),
+  ("kilogram", 0, [("kilogram", 1)]),
+  ("liter", -3, [("meter", 3)]),
+  ("litre", -3, [("meter", 3)]),
+  ("lumen", 0, [("candela", 1), ("radian", 2)]),
+  ("lux", 0, [("meter", -2), ("candela", 1), ("radian", 2)]),
+  ("meter", 0, [("meter", 1)]),
+  ("metre", 0, [("meter", 1)]),
+  ("mole", 0, [("mole", 1)]),
+  ("newton", 0, [("meter", 1), ("kilogram", 1), ("second", -2)]),
+  ("ohm", 0, [("meter", 2), ("kilogram", 1), ("second", -3), ("ampere", -2)]),
+  ("pascal", 0, [("meter", -1), ("kilogram", 1), ("second", -2)]),
+  ("radian", 0, [("radian", 1)]),
+  ("second", 0, [("second", 1)]),
+  ("siemens", 0, [("meter", -2), ("kilogram", -1), ("second", 3), ("ampere", 2)]),
+  ("sievert", 0, [("meter", 2), ("second", -2)]),
+  ("steradian", 0, [("radian", 2)]),
+  ("tesla", 0, [("kilogram", 1), ("second", -2), ("ampere", -1)]),
+  ("volt", 0, [("meter", 2), ("kilogram", 1), ("second", -3), ("ampere", -1)]),
+  ("watt", 0, [("meter", 2), ("kilogram", 1), ("second", -3)]),
+  ("weber", 0, [("meter", 2), ("kilogram", 1), ("second", -2), ("ampere", -1)])]
+
+/-- SI base unit ↦ the dimension it measures -/
+def siDimension : List (String × String) :=
+  [("meter", "length"), ("kilogram", "mass"), ("second", "time"), ("ampere", "current"), ("kelvin", "temperature"),
+   ("mole", "substance"), ("candela", "luminosity")]
+
+def asContainer (xs : List (String × Int)) : Container := xs.map (fun (b, e) => (b, (e : Rat)))
+
+/-- the physical dimension of a table entry: `radian` does not count -/
+def specDimension (xs : List (String × Int)) : Dims :=
+  xs.filterMap (fun (b, e) => (siDimension.lookup b).map (fun d => (d, (e : Rat))))
+
+/-- the built-in `n` means what the table says: (i) the table of root forms computed from `cellml_units.txt`
+    (`Units.builtinDen`), (ii) the expansion of the unit in the registry of a fresh `UnitStore`, (iii) its dimension -/
+def builtinMatches (n : String) : Bool :=
+  match specUnits.lookup n with
+  | none => false
+  | some (p10, root) =>
+      (match builtinDen n with
+       | some (s, c) => beq s (pow10 p10) && beq c (asContainer root)
+       | none => false) &&
+      allKnown builtinRegistry (nameContainer n) &&
+      beq (toRoot builtinRegistry (nameContainer n)).1 (pow10 p10) &&
+      beq (toRoot builtinRegistry (nameContainer n)).2 (asContainer root) &&
+      beq (dimsOf builtinRegistry (nameContainer n)) (specDimension root)
+
+theorem builtin_ampere : builtinMatches "ampere" = true := by decide +kernel
+theorem builtin_becquerel : builtinMatches "becquerel" = true := by decide +kernel
+theorem builtin_candela : builtinMatches "candela" = true := by decide +kernel
+theorem builtin_coulomb : builtinMatches "coulomb" = true := by decide +kernel
+theorem builtin_dimensionless : builtinMatches "dimensionless" = true := by decide +kernel
+theorem builtin_farad : builtinMatches "farad" = true := by decide +kernel
+theorem builtin_gram : builtinMatches "gram" = true := by decide +kernel
+theorem builtin_gray : builtinMatches "gray" = true := by decide +kernel
+theorem builtin_henry : builtinMatches "henry" = true := by decide +kernel
+theorem builtin_hertz : builtinMatches "hertz" = true := by decide +kernel
+theorem builtin_joule : builtinMatches "joule" = true := by decide +kernel
+theorem builtin_katal : builtinMatches "katal" = true := by decide +kernel
+theorem builtin_kelvin : builtinMatches "kelvin" = true := by decide +kernel
+theorem builtin_kilogram : builtinMatches "kilogram" = true := by decide +kernel
+theorem builtin_liter : builtinMatches "liter" = true := by decide +kernel
+theorem builtin_litre : builtinMatches "litre" = true := by decide +kernel
+theorem builtin_lumen : builtinMatches "lumen" = true := by decide +kernel
+theorem builtin_lux : builtinMatches "lux" = true := by decide +kernel
+theorem builtin_meter : builtinMatches "meter" = true := by decide +kernel
+theorem builtin_metre : builtinMatches "metre" = true := by decide +kernel
+theorem builtin_mole : builtinMatches "mole" = true := by decide +kernel
+theorem builtin_newton : builtinMatches "newton" = true := by decide +kernel
+theorem builtin_ohm : builtinMatches "ohm" = true := by decide +kernel
+theorem builtin_pascal : builtinMatches "pascal" = true := by decide +kernel
+theorem builtin_radian : builtinMatches "radian" = true := by decide +kernel
+theorem builtin_second : builtinMatches "second" = true := by decide +kernel
+theorem builtin_siemens : builtinMatches "siemens" = true := by decide +kernel
+theorem builtin_sievert : builtinMatches "sievert" = true := by decide +kernel
+theorem builtin_steradian : builtinMatches "steradian" = true := by decide +kernel
+theorem builtin_tesla : builtinMatches "tesla" = true := by decide +kernel
+theorem builtin_volt : builtinMatches "volt" = true := by decide +kernel
+theorem builtin_watt : builtinMatches "watt" = true := by decide +kernel
+theorem builtin_weber : builtinMatches "weber" = true := by decide +kernel
+
+/-- the names `_CELLML_UNITS` protects are exactly the names of the table (so none is unchecked), none twice -/
+theorem builtin_names : cellmlUnits.Perm (specUnits.map Prod.fst) ∧ cellmlUnits.Nodup := by decide +kernel
+
+/-- hence every built-in name means what the specification says -/
+theorem builtin_table : ∀ n ∈ cellmlUnits, builtinMatches n = true := by
+  intro n hn
+  simp only [cellmlUnits, List.mem_cons, List.not_mem_nil, or_false] at hn
+  rcases hn with rfl | rfl | rfl | rfl | rfl | rfl | rfl | rfl | rfl | rfl | rfl | rfl | rfl | rfl | rfl | rfl | rfl |
+    rfl | rfl | rfl | rfl | rfl | rfl | rfl | rfl | rfl | rfl | rfl | rfl | rfl | rfl | rfl | rfl
+  all_goals simp only [builtin_ampere, builtin_becquerel, builtin_candela, builtin_coulomb, builtin_dimensionless, builtin_farad, builtin_gram, builtin_gray, builtin_henry, builtin_hertz, builtin_joule, builtin_katal, builtin_kelvin, builtin_kilogram, builtin_liter, builtin_litre, builtin_lumen, builtin_lux, builtin_meter, builtin_metre, builtin_mole, builtin_newton, builtin_ohm, builtin_pascal, builtin_radian, builtin_second, builtin_siemens, builtin_sievert, builtin_steradian, builtin_tesla, builtin_volt, builtin_watt, builtin_weber]
+
+/-- `celsius` is the only unit of the specification's table that is refused -/
+theorem unsupported_is_celsius : unsupportedUnits = ["celsius"] := by decide +kernel
+
+/-! ## 2. The work list terminates — for every input, within a known number of passes -/
+
+/-- `_add_units` cannot hang: the loop, a total function by well-founded recursion on
+    `(|deque|, |deque| + 1 − iteration)`, returns for every document; and it agrees with the loop that stops after
+    `stepBound n 0` passes through the `while` test, `n` being the number of queued definitions. -/
+theorem worklist_terminates (id : Nat) (defs : List UDef) : addUnitsFuel id defs = some (addUnits id defs) := by
+  unfold addUnitsFuel addUnits
+  split
+  · rfl
+  · exact loopFuel_eq_loop _ _ _ _ _ _ (Nat.le_refl _)
+
+/-- … which is `n(n+1)/2 + n + 2` -/
+theorem worklist_pass_bound (n : Nat) : 2 * stepBound n 0 = n * (n + 1) + 2 * n + 4 := by
+  simp only [stepBound, Nat.sub_zero, Nat.mul_add, tri_double]
+  omega
+
+/-- the fuel-bounded loop, run with the budget, never runs out -/
+theorem worklist_budget_suffices (id : Nat) (defs : List UDef) : (addUnitsFuel id defs).isSome = true := by
+  rw [worklist_terminates]; rfl
+
+/-! ## 3. Soundness: a successful load gives every unit the meaning of the specification formula -/
+
+/-- `word_subst_correct`: on identifiers that start with a letter or an underscore, the `_WORD` substitution puts the
+    store prefix in front of the whole name, exactly as `_prefix_name` does -/
+theorem word_subst_correct (id : Nat) (n : String) (h : goodIdent n = true) : mangle id n = prefixName id n :=
+  mangle_good id h
+
+/-- … and it does not for an identifier that starts with a digit (valid according to the schema): the prefix lands in
+    the middle of the name. Known finding `valid-rejected:digit-leading-name`. -/
+theorem word_subst_digit_leading : mangle 0 "2pi" = "2pstore0_i" ∧ prefixName 0 "2pi" = "store0_2pi" := by
+  decide +kernel
+
+/-- every reference is an identifier that starts with a letter or an underscore -/
+def GoodIdents (defs : List UDef) : Prop :=
+  ∀ d ∈ defs, d.base = false → ∀ e ∈ d.elems, goodIdent e.units = true
+
+theorem goodRefs_of_goodIdents (id : Nat) {defs : List UDef} (h : GoodIdents defs) : GoodRefs id defs :=
+  fun d hd hb e he => mangle_good id (h d hd hb e he)
+
+/-- names unique, none built-in ⇒ a name has at most one meaning (up to equality of the numbers denoted) -/
+theorem den_functional (id : Nat) (defs : List UDef) (hnd : (defs.map (·.name)).Nodup)
+    (hnb : ∀ d ∈ defs, cellmlUnits.contains d.name = false) (n : String) (x y : Scale × Container)
+    (hx : NameDen id defs n x) (hy : NameDen id defs n y) : x ≃₂ y :=
+  nameDen_functional hnd hnb hx hy
+
+/-- the meaning does not depend on the order of the definitions — by construction: `Den` uses membership only -/
+theorem den_perm (id : Nat) {defs₁ defs₂ : List UDef} (hp : defs₁.Perm defs₂) (n : String) (x : Scale × Container) :
+    NameDen id defs₁ n x ↔ NameDen id defs₂ n x :=
+  ⟨fun h => h.of_mem_iff (fun _ => hp.mem_iff), fun h => h.of_mem_iff (fun _ => hp.mem_iff.symm)⟩
+
+/-- SOUNDNESS. If the document is loaded, then every one of its units has a meaning according to the specification
+    formula, it has no other, and `get_base_units` of the loaded unit IS that meaning: the scale to the root units and
+    the root-unit exponents are exactly ∏ multiplier·(10^prefix·⟦ref⟧)^exponent, to any depth of chain. -/
+theorem worklist_sound_partial (id : Nat) (defs : List UDef) (reg : Registry) (st : Store) (hgood : GoodIdents defs)
+    (h : addUnits id defs = .ok (reg, st)) :
+    ∀ d ∈ defs, (∃ x, NameDen id defs d.name x) ∧
+      ∀ x, NameDen id defs d.name x → meaningOf reg st d.name ≃₂ x := by
+  intro d hd
+  obtain ⟨x, hx, hxeq⟩ := addUnits_sound (goodRefs_of_goodIdents id hgood) h d hd
+  have hl := addUnits_loadable h
+  exact ⟨⟨x, hx⟩, fun y hy => hxeq.trans (nameDen_functional hl.nodup hl.notBuiltin hx hy)⟩
+
+/-- the dimension follows: equal root units have equal dimensions -/
+theorem worklist_sound_dims_partial (id : Nat) (defs : List UDef) (reg : Registry) (st : Store)
+    (hgood : GoodIdents defs) (h : addUnits id defs = .ok (reg, st)) :
+    ∀ d ∈ defs, ∀ x, NameDen id defs d.name x →
+      dimsOf reg (nameContainer (prefixName st.id d.name)) ≃ dimsOfRoot reg x.2 := by
+  intro d hd x hx
+  have := ((worklist_sound_partial id defs reg st hgood h d hd).2 x hx).2
+  exact (dimsOf_equiv reg _).trans (dimsOfRoot_congr reg this)
+
+/-! ## 4. Order independence -/
+
+/-- success implies the order-free conditions (full strength: no hypothesis on identifiers) -/
+theorem worklist_loadable (id : Nat) (defs : List UDef) (r : Registry × Store) (h : addUnits id defs = .ok r) :
+    Loadable id defs := addUnits_loadable h
+
+/-- COMPLETENESS: unique non-built-in names, locally well-formed definitions, no cycle and no dangling reference
+    ⇒ the document is loaded, whatever the order it is written in -/
+theorem worklist_complete_partial (id : Nat) (defs : List UDef) (hgood : GoodIdents defs) (hl : Loadable id defs) :
+    ∃ r, addUnits id defs = .ok r := addUnits_complete (goodRefs_of_goodIdents id hgood) hl
+
+/-- the conditions do not mention the order -/
+theorem loadable_perm (id : Nat) {defs₁ defs₂ : List UDef} (hp : defs₁.Perm defs₂) :
+    Loadable id defs₁ ↔ Loadable id defs₂ := ⟨Loadable.perm hp, Loadable.perm hp.symm⟩
+
+theorem goodIdents_perm {defs₁ defs₂ : List UDef} (hp : defs₁.Perm defs₂) (h : GoodIdents defs₁) : GoodIdents defs₂ :=
+  fun d hd => h d (hp.mem_iff.mpr hd)
+
+/-- the names defined by two successful loads of permuted documents are the same (full strength) -/
+theorem worklist_perm_names (id : Nat) {defs₁ defs₂ : List UDef} (hp : defs₁.Perm defs₂) {reg₁ reg₂ : Registry}
+    {st₁ st₂ : Store} (h₁ : addUnits id defs₁ = .ok (reg₁, st₁)) (h₂ : addUnits id defs₂ = .ok (reg₂, st₂)) :
+    st₁.known.Perm st₂.known := by
+  have key : ∀ {defs : List UDef} {reg : Registry} {st : Store}, addUnits id defs = .ok (reg, st) →
+      st.known.Perm (defs.map (·.name)) := by
+    intro defs reg st h
+    obtain ⟨reg0, st0, ord, hb, hpq, hs⟩ := addUnits_ok h
+    rw [(seqAdd_known ord _ _ _ _ hs).1, (addBases_known defs _ _ _ _ hb).1, List.append_nil]
+    refine ((List.reverse_perm _).append (List.reverse_perm _)).trans ?_
+    refine List.perm_append_comm.trans ?_
+    rw [← List.map_append]
+    exact ((List.Perm.append_left _ hpq).trans (bases_queue_perm defs)).map _
+  exact (key h₁).trans ((hp.map _).trans (key h₂).symm)
+
+/-- ORDER INDEPENDENCE. Permuting the `<units>` elements of a document changes neither whether it is loaded nor,
+    when it is, the meaning of any name. -/
+theorem worklist_perm_partial (id : Nat) {defs₁ defs₂ : List UDef} (hp : defs₁.Perm defs₂) (hgood : GoodIdents defs₁) :
+    ((∃ r, addUnits id defs₁ = .ok r) ↔ (∃ r, addUnits id defs₂ = .ok r)) ∧
+    ∀ reg₁ st₁ reg₂ st₂, addUnits id defs₁ = .ok (reg₁, st₁) → addUnits id defs₂ = .ok (reg₂, st₂) →
+      st₁.known.Perm st₂.known ∧ ∀ d ∈ defs₁, meaningOf reg₁ st₁ d.name ≃₂ meaningOf reg₂ st₂ d.name := by
+  have hgood₂ := goodIdents_perm hp hgood
+  refine ⟨⟨?_, ?_⟩, ?_⟩
+  · rintro ⟨r, h⟩
+    exact worklist_complete_partial id defs₂ hgood₂ ((loadable_perm id hp).mp (addUnits_loadable h))
+  · rintro ⟨r, h⟩
+    exact worklist_complete_partial id defs₁ hgood ((loadable_perm id hp).mpr (addUnits_loadable h))
+  · intro reg₁ st₁ reg₂ st₂ h₁ h₂
+    refine ⟨worklist_perm_names id hp h₁ h₂, ?_⟩
+    intro d hd
+    obtain ⟨⟨x, hx⟩, hall₁⟩ := worklist_sound_partial id defs₁ reg₁ st₁ hgood h₁ d hd
+    have hall₂ := (worklist_sound_partial id defs₂ reg₂ st₂ hgood₂ h₂ d (hp.mem_iff.mp hd)).2
+    exact (hall₁ x hx).trans (hall₂ x ((den_perm id hp _ _).mp hx)).symm
+
+/-! ## 5. Faulty documents are rejected (full strength: any size, any order, any identifiers) -/
+
+theorem isError_of_not_loadable {id : Nat} {defs : List UDef} (h : ¬ Loadable id defs) :
+    ∃ e, addUnits id defs = .error e := by
+  cases hr : addUnits id defs with
+  | error e => exact ⟨e, rfl⟩
+  | ok r => exact absurd (addUnits_loadable hr) h
+
+/-- two `<units>` elements with the same name (base or not, anywhere in the document) -/
+theorem reject_duplicate (id : Nat) (defs : List UDef) (h : ¬ (defs.map (·.name)).Nodup) :
+    ∃ e, addUnits id defs = .error e := isError_of_not_loadable (fun hl => h hl.nodup)
+
+/-- a `<units>` element (base or not) named like a built-in unit -/
+theorem reject_builtin_override (id : Nat) (defs : List UDef) (d : UDef) (hd : d ∈ defs)
+    (h : cellmlUnits.contains d.name = true) : ∃ e, addUnits id defs = .error e :=
+  isError_of_not_loadable (fun hl => by rw [hl.notBuiltin d hd] at h; cases h)
+
+/-- a `<unit>` child whose offset fails the test `offset.strip().isnumeric() and int(offset) == 0` -/
+theorem reject_offset (id : Nat) (defs : List UDef) (d : UDef) (hd : d ∈ defs) (hb : d.base = false)
+    (e : UnitElem) (he : e ∈ d.elems) (o : String) (ho : e.offset = some o) (hbad : offsetRejected o = true) :
+    ∃ err, addUnits id defs = .error err := by
+  refine isError_of_not_loadable (fun hl => ?_)
+  have h1 := (hl.loc d hd hb).1
+  have h2 : d.elems.any elemOffsetBad = true := List.any_eq_true.mpr ⟨e, he, by simp [elemOffsetBad, ho, hbad]⟩
+  rw [h1] at h2; cases h2
+
+/-- in particular every offset that denotes a non-zero number (the converse fails: `offset_zero_point_rejected`) -/
+theorem reject_nonzero_offset (id : Nat) (defs : List UDef) (d : UDef) (hd : d ∈ defs) (hb : d.base = false)
+    (e : UnitElem) (he : e ∈ d.elems) (o : String) (ho : e.offset = some o) (q : Rat)
+    (hq : Decimal.parse o = some q) (hne : q ≠ 0) : ∃ err, addUnits id defs = .error err :=
+  reject_offset id defs d hd hb e he o ho (nonzero_offset_rejected o q hq hne)
+
+/-- a reference to a name that is neither built-in nor defined in the document -/
+theorem reject_dangling (id : Nat) (defs : List UDef) (d : UDef) (hd : d ∈ defs) (hb : d.base = false)
+    (e : UnitElem) (he : e ∈ d.elems) (h1 : cellmlUnits.contains e.units = false)
+    (h2 : e.units ∉ defs.map (·.name)) : ∃ err, addUnits id defs = .error err := by
+  refine isError_of_not_loadable (fun hl => ?_)
+  obtain ⟨ord, ho, ht⟩ := hl.topo
+  have hdo : d ∈ ord := ho.mem_iff.mpr (mem_queue.mpr ⟨hd, hb⟩)
+  rcases Topo.refs ord ht d hdo e he with (h | h) | h
+  · rw [h1] at h; cases h
+  · obtain ⟨x, hx, hn⟩ := List.mem_map.mp h
+    exact h2 (List.mem_map.mpr ⟨x, (mem_basesOf.mp hx).1, hn⟩)
+  · obtain ⟨x, hx, hn⟩ := List.mem_map.mp h
+    exact h2 (List.mem_map.mpr ⟨x, (mem_queue.mp (ho.mem_iff.mp hx)).1, hn⟩)
+
+/-- a non-empty group of definitions each of which refers to a member of the group (a cycle of any length, a
+    self-reference, several cycles) -/
+theorem reject_cycle (id : Nat) (defs : List UDef) (cyc : List UDef) (hne : cyc ≠ [])
+    (h : ∀ d ∈ cyc, d ∈ defs ∧ d.base = false ∧ ∃ e ∈ d.elems, ∃ d' ∈ cyc, e.units = d'.name) :
+    ∃ err, addUnits id defs = .error err := by
+  cases hr : addUnits id defs with
+  | error e => exact ⟨e, rfl⟩
+  | ok r =>
+      exfalso
+      obtain ⟨reg0, st0, ord, _, hp, hs⟩ := addUnits_ok hr
+      refine hne (seqAdd_no_cycle ord _ _ _ hs cyc ?_)
+      intro d hd
+      obtain ⟨hm, hb, rest⟩ := h d hd
+      exact ⟨hp.mem_iff.mpr (mem_queue.mpr ⟨hm, hb⟩), rest⟩
+
+/-! ## 6. Non-vacuity: concrete documents meet the hypotheses; proved counterexamples for the known findings -/
+
+theorem ok_of_fuel {id : Nat} {defs : List UDef} (h : fuelOk id defs = true) : ∃ r, addUnits id defs = .ok r := by
+  unfold fuelOk at h
+  rw [worklist_terminates] at h
+  split at h
+  · rename_i r hr; simp only [Option.some.injEq] at hr; exact ⟨r, hr⟩
+  · cases h
+
+theorem error_of_fuel {id : Nat} {defs : List UDef} {e : AddErr} (h : fuelError id defs = some e) :
+    addUnits id defs = .error e := by
+  unfold fuelError at h
+  rw [worklist_terminates] at h
+  split at h
+  · rename_i e' he; simp only [Option.some.injEq] at he h; rw [he, h]
+  · cases h
+
+theorem meaning_of_fuel {id : Nat} {defs : List UDef} {name : String} {x : Scale × Container}
+    (h : loadedMeaning id defs name = some x) :
+    ∃ reg st, addUnits id defs = .ok (reg, st) ∧ x = (norm (meaningOf reg st name).1, norm (meaningOf reg st name).2) := by
+  unfold loadedMeaning at h
+  rw [worklist_terminates] at h
+  split at h
+  · rename_i reg st hr
+    simp only [Option.some.injEq] at hr h
+    exact ⟨reg, st, hr, h.symm⟩
+  · cases h
+
+/-- a = mV;  b = a²/s;  w a new base unit;  c = 60·b·w;  d = (10³·c)^½ — written so that the work list, which pops
+    from the end of the document, meets `d`, `c`, `b` before what they need and has to re-queue them -/
+def chain : List UDef := [
+  ⟨"a", false, [⟨"volt", some "milli", none, none, none⟩]⟩,
+  ⟨"b", false, [⟨"a", none, some "2", none, none⟩, ⟨"second", none, some "-1", none, none⟩]⟩,
+  ⟨"w", true, []⟩,
+  ⟨"c", false, [⟨"b", none, none, some "60", none⟩, ⟨"w", none, none, none, none⟩]⟩,
+  ⟨"d", false, [⟨"c", some "3", some "0.5", none, none⟩]⟩]
+
+instance : Decidable (GoodIdents defs) := by unfold GoodIdents; infer_instance
+
+example : GoodIdents chain := by decide +kernel
+example : Loadable 0 chain := loadable_of_b (ord := [chain[0], chain[1], chain[3], chain[4]]) (by decide +kernel)
+example : ∃ r, addUnits 0 chain = .ok r := ok_of_fuel (by decide +kernel)
+example : ∃ r, addUnits 0 chain.reverse = .ok r := ok_of_fuel (by decide +kernel)
+/-- `d` means 2^-½·3^½·5^-1 · kg·m²·s^-7/2·A^-1·w^½ = (10³ · 60 · (10⁻³ V)² / s · w)^½, in either order -/
+example : loadedMeaning 0 chain "d" = some ([(2, -1/2), (3, 1/2), (5, -1)],
+    [("ampere", -1), ("kilogram", 1), ("meter", 2), ("second", -7/2), ("store0_w", 1/2)]) := by decide +kernel
+example : loadedMeaning 0 chain.reverse "d" = loadedMeaning 0 chain "d" := by decide +kernel
+/-- the bound of `worklist_terminates` for the four queued definitions of `chain`: 16 passes -/
+example : stepBound (queue chain).length 0 = 16 := by decide +kernel
+
+/-- duplicate: second definition of `a` (here as a base unit) -/
+example : ∃ e, addUnits 0 (chain ++ [⟨"a", true, []⟩]) = .error e := reject_duplicate 0 _ (by decide +kernel)
+/-- override of a built-in, by an ordinary and by a base definition -/
+example : ∃ e, addUnits 0 (⟨"litre", false, [⟨"metre", none, some "3", none, none⟩]⟩ :: chain) = .error e :=
+  reject_builtin_override 0 _ _ List.mem_cons_self (by decide +kernel)
+example : ∃ e, addUnits 0 (chain ++ [⟨"volt", true, []⟩]) = .error e :=
+  reject_builtin_override 0 _ ⟨"volt", true, []⟩ (by simp) (by decide +kernel)
+/-- non-zero offsets -/
+example : offsetRejected "273.15" = true ∧ offsetRejected "32" = true ∧ offsetRejected "-1" = true ∧
+    offsetRejected "0" = false ∧ offsetRejected " 00 " = false := by decide +kernel
+example : ∃ e, addUnits 0 (chain ++ [⟨"fahrenheit", false, [⟨"kelvin", none, none, some "0.5555", some "255.37"⟩]⟩]) =
+    .error e :=
+  reject_offset 0 _ ⟨"fahrenheit", false, [⟨"kelvin", none, none, some "0.5555", some "255.37"⟩]⟩ (by simp) rfl
+    ⟨"kelvin", none, none, some "0.5555", some "255.37"⟩ (by simp) "255.37" rfl (by decide +kernel)
+example : ∃ e, addUnits 0 [⟨"celsius_like", false, [⟨"kelvin", none, none, none, some "-273.15"⟩]⟩] = .error e :=
+  reject_nonzero_offset 0 _ _ List.mem_cons_self rfl ⟨"kelvin", none, none, none, some "-273.15"⟩ (by simp) _ rfl
+    (-5463/20) (by decide +kernel) (by decide +kernel)
+/-- dangling reference -/
+example : ∃ e, addUnits 0 (⟨"x", false, [⟨"nosuchunit", none, none, none, none⟩]⟩ :: chain) = .error e :=
+  reject_dangling 0 _ _ List.mem_cons_self rfl ⟨"nosuchunit", none, none, none, none⟩ (by simp) (by decide +kernel)
+    (by decide +kernel)
+/-- a cycle of three hidden among valid definitions, and a self-reference -/
+def ring : List UDef := [
+  ⟨"p", false, [⟨"q", none, none, none, none⟩, ⟨"second", none, none, none, none⟩]⟩,
+  ⟨"q", false, [⟨"r", some "kilo", none, none, none⟩]⟩,
+  ⟨"r", false, [⟨"metre", none, none, none, none⟩, ⟨"p", none, some "-1", none, none⟩]⟩]
+example : ∃ e, addUnits 0 (chain ++ ring) = .error e :=
+  reject_cycle 0 _ ring (by decide) (by decide +kernel)
+example : ∃ e, addUnits 0 [⟨"s", false, [⟨"s", none, none, none, none⟩]⟩] = .error e :=
+  reject_cycle 0 _ [⟨"s", false, [⟨"s", none, none, none, none⟩]⟩] (by decide) (by decide +kernel)
+/-- the error of a cycle is the work list's own: "Cycles or unknown units" -/
+example : addUnits 0 ring = .error stuck := error_of_fuel (by decide +kernel)
+
+/-! ### proved counterexamples (known findings of the unchanged tree) -/
+
+/-- `2pi` is a valid identifier of the schema; the document is loadable according to the specification
+    (`Loadable`: unique names, no cycle, …) and yet it is REJECTED, because the `_WORD` substitution mangles the
+    reference. So `worklist_complete_partial` / `worklist_perm_partial` need their hypothesis `GoodIdents`.
+    Known finding `valid-rejected:digit-leading-name`. -/
+def twoPi : List UDef := [
+  ⟨"2pi", false, [⟨"dimensionless", none, none, some "6.28", none⟩]⟩,
+  ⟨"turns_per_s", false, [⟨"2pi", none, none, none, none⟩, ⟨"second", none, some "-1", none, none⟩]⟩]
+
+theorem digit_leading_reference_rejected :
+    Loadable 0 twoPi ∧ addUnits 0 twoPi = .error .undefinedUnit ∧ ¬ GoodIdents twoPi :=
+  ⟨loadable_of_b (ord := twoPi) (by decide +kernel), error_of_fuel (by decide +kernel), by decide +kernel⟩
+
+/-- the same document with the name spelled `twopi` is loaded, and `turns_per_s` means 6.28/s -/
+example : loadedMeaning 0 [
+    ⟨"twopi", false, [⟨"dimensionless", none, none, some "6.28", none⟩]⟩,
+    ⟨"turns_per_s", false, [⟨"twopi", none, none, none, none⟩, ⟨"second", none, some "-1", none, none⟩]⟩]
+    "turns_per_s" = some ([(5, -2), (157, 1)], [("second", -1)]) := by decide +kernel
+
+/-- `offset="0.0"` is zero, and rejected: the test is `isnumeric()`. Known finding
+    `valid-rejected:zero-offset-spelling`. -/
+theorem offset_zero_point_rejected :
+    Decimal.parse "0.0" = some 0 ∧ offsetRejected "0.0" = true ∧
+    addUnits 0 [⟨"degK", false, [⟨"kelvin", none, none, none, some "0.0"⟩]⟩] = .error (.valueError "offset") :=
+  ⟨by decide +kernel, by decide +kernel, error_of_fuel (by decide +kernel)⟩
+
+/-- `dimensionless` (carrying the multiplier) times a dimensional unit: the implementation loads the definition but
+    the unit is unusable afterwards (pint `KeyError: ''`); the model marks the construct as outside its fragment.
+    Known finding `unit-unusable:dimensionless-times-dimensional`. -/
+theorem dimensionless_times_dimensional_outside_model :
+    addUnits 0 [⟨"km", false, [⟨"dimensionless", none, none, some "1000", none⟩, ⟨"metre", none, none, none, none⟩]⟩] =
+      .error (.unsupported "dimensionless mixed with dimensional units") := error_of_fuel (by decide +kernel)
+
+end Cellml.Props.C03
